@@ -35,6 +35,8 @@ THEOREMS = [
     "C15_abs_change_unit_free",
     "C15_gmm_stop_rule_depends_on_units",
     "C15_kmeans_stop_rule_unit_free",
+    "C15_ml_fit_equivariant_of_shift_invariant_stop",
+    "C15_abs_stop_shift_invariant",
 ]
 CORR_OPS = ["gmm_ll:transformed", "gmm_estep:transformed"]
 RULE = ("pairs (original, affinely transformed) of inputs: per-feature scales in +-[1e-3, 1e3] (negative and widely different magnitudes), "
@@ -106,6 +108,30 @@ def o_loglik(sc):
     s0, s1 = g.acc_stats(sc["X"]), gt.acc_stats(a * sc["X"] + b)
     if not core.close(s0.n, s1.n, 1e-7, 1e-8):
         return {"sig": "responsibilities-not-invariant", "what": f"{np.asarray(s0.n).tolist()} vs {np.asarray(s1.n).tolist()}"}
+    return None
+
+
+def o_highdim(rng):
+    """many features, all in a small (or all in a large) unit: every variance is an ordinary number, the product of a Gaussian's
+    variances is not; log-likelihoods still shift by -sum log|a| and one ML step still follows the features"""
+    C, D = int(rng.integers(1, 3)), int(rng.integers(40, 90))
+    w, m, v, _ = gen.gmm_params(rng, C, D, scales=np.ones(D))
+    X = gen.sample_data(rng, w, m, v, 30)
+    a = np.full(D, float(10.0 ** (rng.choice([-1.0, 1.0]) * rng.uniform(3, 5)))) * rng.choice([-1.0, 1.0], D)
+    b = rng.normal(size=D) * np.abs(a)
+    f = o_loglik(dict(w=w, m=m, v=v, X=X, a=a, b=b))
+    if f:
+        return f
+    res = []
+    for (mm, vv, x, fl) in ((m, v, X, 1e-12), (a * m + b, a * a * v, a * X + b, 1e-12 * a * a)):
+        g = gen.mk_gmm(w, mm, vv, thr=np.broadcast_to(fl, np.shape(vv)).copy(), max_fitting_steps=1, convergence_threshold=None, update_variances=True, update_weights=True)
+        r = core.impl(lambda: g.fit(x))
+        if isinstance(r, core.ImplError):
+            return {"sig": "training-raises:ml", "what": repr(r)}
+        res.append((np.asarray(g.weights, float), np.asarray(g.means, float), np.asarray(g.variances, float)))
+    (w0, m0, v0), (w1, m1, v1) = res
+    if not (np.all(np.isfinite(w1)) and np.all(np.isfinite(m1)) and np.all(np.isfinite(v1))) or not core.close(w1, w0, 1e-6, 1e-8) or not rel_close(m1, a * m0 + b, np.abs(a) * np.sqrt(v0), 1e-6):
+        return {"sig": "means-not-equivariant:ml", "what": f"{D} features in units of {abs(a[0]):.3g}: one ML step does not follow the features (weights {w1.tolist()} vs {w0.tolist()})"}
     return None
 
 
@@ -330,8 +356,15 @@ def o_kmeans(rng):
     t = rng.normal(size=D) * 10 * (abs(s) if extreme else 1.0)
     thr = None if rng.integers(0, 3) == 0 else float(10 ** rng.uniform(-6, -2))
     c0 = X[:K].copy() if rng.integers(0, 3) == 0 else X[0] + 0.3 * rng.normal(size=(K, D))  # all in one blob: needs many iterations
+    far = bool(rng.random() < 0.25)
+    if far:
+        # a pure translation by ~1e8 .. 1e9 spreads, with data, centroids and shift on a binary grid so that the translation itself is
+        # exact in float64: assignments and centroids must not notice where the origin is
+        X, c0 = np.round(X * 64) / 64, np.round(c0 * 64) / 64
+        Q, s, thr = np.eye(D), 1.0, None
+        t = np.round(rng.uniform(2.0**26, 2.0**30, D)) * rng.choice([-1.0, 1.0], D)
     f = lambda Z: s * Z @ Q.T + t
-    if rng.random() < 0.3:
+    if rng.random() < 0.3 and not far:
         c0 = c0.copy()
         c0[int(rng.integers(0, K))] = X.mean(axis=0) + 50.0 * (1 + rng.random(D))  # a centroid that attracts nothing keeps its place
     as_dask = bool(rng.random() < 0.35)
@@ -344,9 +377,12 @@ def o_kmeans(rng):
     (c_a, l_a, j_a, d_a), (c_b, l_b, j_b, d_b) = ms
     if not np.array_equal(l_a, l_b):
         return {"sig": "kmeans-assignments-not-invariant", "what": "labels differ under a similarity transform"}
+    if far and not core.close(c_b - t, c_a, 0, 16 * gen.EPS * float(np.max(np.abs(t)))):  # a centroid near t is resolved to eps * |t|
+        return {"sig": "kmeans-centroids-not-equivariant", "what": f"translation by {t.tolist()} (exact in float64): centroids {(c_b - t).tolist()} vs {c_a.tolist()}"}
     if not core.close(c_b, f(c_a), 1e-7, 1e-7 * (abs(s) + np.max(np.abs(t)))):
         return {"sig": "kmeans-centroids-not-equivariant", "what": f"scale {s}, threshold {thr}: {c_b.tolist()} vs {f(c_a).tolist()}"}
-    if not (core.close(j_b, s * s * j_a, 1e-7, 0) and core.close(d_b, s * s * d_a, 1e-6, 1e-9 * s * s)):
+    jt = 1e-7 if not far else 1e-4  # far from the origin the centroids themselves are only resolved to eps * |t|
+    if not (core.close(j_b, s * s * j_a, jt, 0) and core.close(d_b, s * s * d_a, 10 * jt, 1e-9 * s * s + (1e-5 if far else 0.0))):
         return {"sig": "kmeans-distances-not-scaled", "what": f"criterion {j_b} vs s^2 * {j_a}"}
     return None
 
@@ -368,6 +404,7 @@ def search(ctx):
         seed = int(ctx.rng.integers(0, 2**31))
         if kind == "loglik":
             add(o_loglik(sc), {"kind": kind, **sc})
+            add(o_highdim(np.random.default_rng(seed)), {"kind": "highdim", "seed": seed})
         elif kind in ("ml", "map"):
             if sc["C"] >= 2 and ctx.rng.random() < 0.35:
                 # one component far from all data: it gets no responsibility and must stay where it is (in both systems)
@@ -401,6 +438,8 @@ def search(ctx):
 def replay(d):
     sc = d["input"]
     kind = sc["kind"]
+    if kind == "highdim":
+        return o_highdim(np.random.default_rng(sc["seed"]))
     if kind == "linear_units":
         return o_linear_units(np.random.default_rng(sc["seed"]))
     if kind == "stop_units":
